@@ -343,8 +343,19 @@ class Fn:
             edges = self.succ[bb]
             if t[0] == 'switch' and flagset:
                 op = t[1]
-                if op[0] in ('m', 'c') and not op[1][1] and op[1][0] in f:
-                    v = f[op[1][0]]
+                fl = None
+                if op[0] in ('m', 'c') and not op[1][1]:
+                    fl = op[1][0]
+                    if fl not in flagset:
+                        # `_t = copy flag; switchInt(move _t)`: a temporary holding the flag, defined in this very block
+                        for st in self.blocks[bb]['s']:
+                            if st[0] == '=' and st[1][0] == fl and not st[1][1] and st[2][0] == 'use' and st[2][1][0] in ('m', 'c') and not st[2][1][1][1] and st[2][1][1][0] in flagset:
+                                ds = self.defs.get(fl, [])
+                                if len(ds) == 1:
+                                    fl = st[2][1][1][0]
+                                break
+                if fl is not None and fl in f:
+                    v = f[fl]
                     hit = [(tb, lab) for (tb, lab) in edges if lab == v]
                     if not hit:
                         hit = [(tb, lab) for (tb, lab) in edges if lab == 'otherwise']
@@ -1050,8 +1061,8 @@ def expr_ops(prog, fn, op, depth=0, seen=None):
         return out
     c = d[2]
     cal = c.callee or ''
-    if cal in prog.fns or cal.startswith('fil_actor') or (c.defp or '').startswith('fil_actors_runtime::runtime::'):
-        return out
+    if not (c.defp or '').startswith('core::ops::') and (cal in prog.fns or cal.startswith('fil_actor') or (c.defp or '').startswith('fil_actors_runtime::runtime::')):
+        return out          # (operator traits implemented in the workspace - PowerPair + PowerPair - are arithmetic, not opaque calls)
     last = (c.defp or cal).split('::')[-1]
     if last in ARITH_CALLS:
         out.add(('OP', ARITH_CALLS[last]))
